@@ -110,6 +110,17 @@ int sqfs_meta_reader_seek(sqfs_meta_reader_t *m, sqfs_u64 block_start,
 		return 0;
 	}
 
+	/*
+	 * The cached block is about to be overwritten. Forget it now, so
+	 * that a failure below cannot leave the old block_offset tagging
+	 * the (partial) contents of a different block. Until a block has
+	 * been loaded completely, the reader holds no data at all.
+	 */
+	m->block_offset = 0xFFFFFFFFFFFFFFFFUL;
+	m->next_block = 0xFFFFFFFFFFFFFFFFUL;
+	m->data_used = 0;
+	m->offset = 0;
+
 	err = m->file->read_at(m->file, block_start, &header, 2);
 	if (err)
 		return err;
@@ -141,8 +152,10 @@ int sqfs_meta_reader_seek(sqfs_meta_reader_t *m, sqfs_u64 block_start,
 		m->data_used = size;
 	}
 
-	if (offset >= m->data_used)
+	if (offset >= m->data_used) {
+		m->data_used = 0;
 		return SQFS_ERROR_OUT_OF_BOUNDS;
+	}
 
 	m->block_offset = block_start;
 	m->next_block = block_start + size + 2;
